@@ -219,7 +219,7 @@ func TestVerifC27(t *testing.T) {
 	rec := kit.Start(t, "C27", "rewrite")
 	defer rec.Finish()
 	env := rec.Env
-	n := env.Pick(300, 8000)
+	n := env.Pick(300, 2500)
 	for ci := 0; ci < n; ci++ {
 		if !env.Mine(ci) {
 			continue
